@@ -36,6 +36,34 @@ fn workloads() -> Vec<Workload> {
 	w4.ops.push(Wop::P(Phys::Reopen));
 	w4.ops.push(Wop::W(vec![Write::set(b"k10", b"after-reopen")], true));
 	v.push(w4);
+	// overwrites, deletes and multi-key transactions on three keys (value-level judging)
+	let big = |tag: &str| -> Vec<u8> { format!("{tag:_>500}").into_bytes() };
+	let mut ops = vec![];
+	ops.push(Wop::W(vec![Write::set(b"a", &big("a1")), Write::set(b"b", &big("b1"))], false));
+	ops.push(Wop::W(vec![Write::set(b"a", &big("a2"))], true));
+	ops.push(Wop::W(vec![Write::new(crate::model::Kind::Delete, b"b", b""), Write::set(b"c", &big("c1"))], false));
+	ops.push(Wop::P(Phys::Rotate));
+	ops.push(Wop::W(vec![Write::set(b"b", &big("b2"))], false));
+	ops.push(Wop::P(Phys::FlushOldest));
+	ops.push(Wop::W(vec![Write::set(b"a", &big("a3")), Write::set(b"c", &big("c2"))], true));
+	ops.push(Wop::W(vec![Write::new(crate::model::Kind::Delete, b"a", b"")], false));
+	ops.push(Wop::W(vec![Write::set(b"a", &big("a4")), Write::set(b"b", &big("b3")), Write::set(b"c", &big("c3"))], false));
+	ops.push(Wop::P(Phys::Drain));
+	ops.push(Wop::W(vec![Write::set(b"b", &big("b4"))], true));
+	ops.push(Wop::P(Phys::Compact));
+	ops.push(Wop::W(vec![Write::set(b"c", &big("c4"))], false));
+	v.push(Workload {
+		opt: OptSet::base("L2-memtable4k-overwrites").memtable_size(4096),
+		ops: ops.clone(),
+		forced_height: 1,
+	});
+	let mut w6 = Workload {
+		opt: OptSet::base("L2-memtable4k-overwrites-reopen").memtable_size(4096),
+		ops,
+		forced_height: 1,
+	};
+	w6.ops.insert(6, Wop::P(Phys::Reopen));
+	v.push(w6);
 	v
 }
 
@@ -87,7 +115,27 @@ impl Fault {
 	}
 }
 
-/// Judge one faulty run.
+/// Value hash as the worker prints it.
+fn vh(v: &[u8]) -> String {
+	format!("{:016x}", crate::util::fnv64(v))
+}
+
+/// The stage at which a commit failed, from its error text and the injected call class.
+fn failure_stage(err: &str, f: &Fault) -> String {
+	if err.contains("WAL error") {
+		match f.class_name {
+			"write" => "wal-append-error".to_string(),
+			"fsync" => "wal-sync-error".to_string(),
+			c => format!("wal-error-on-{c}"),
+		}
+	} else if err.starts_with("Commit failed") {
+		"apply-error-after-wal-append".to_string()
+	} else {
+		format!("other:{}", crate::props::norm_msg(err).chars().take(40).collect::<String>())
+	}
+}
+
+/// Judge one faulty run against a value-level model of the acknowledged commits.
 fn judge(wl: &Workload, f: &Fault) -> Result<Option<(String, String)>, String> {
 	let tr = match run_traced_ext(wl, None, Some(&f.to_json()), true) {
 		Ok(t) => t,
@@ -101,34 +149,46 @@ fn judge(wl: &Workload, f: &Fault) -> Result<Option<(String, String)>, String> {
 	if let Some(e) = tr.worker_out.get("open_error") {
 		return Err(format!("initial open failed: {e}"));
 	}
-	// commit outcomes and probes
-	let mut ok_keys: Vec<String> = vec![];
-	let mut ok_after_failure: Vec<String> = vec![];
-	let mut failed_keys: BTreeSet<String> = BTreeSet::new();
-	let mut all_failed: BTreeMap<String, String> = BTreeMap::new();
-	let mut any_commit_failed = false;
+	let commits: Vec<&Vec<Write>> = wl.ops.iter().filter_map(|o| if let Wop::W(ws, _) = o { Some(ws) } else { None }).collect();
+	let summary = || -> String { format!("{:?}", results.iter().filter_map(|r| r.get("commit").map(|c| format!("{}:{}", c, r["ok"]))).collect::<Vec<_>>()) };
+	// acknowledged state: key -> value hash (absent = deleted / never written)
+	let mut model: BTreeMap<String, String> = BTreeMap::new();
+	// every write in commit order: (key, Some(hash) | None for a delete, acknowledged?, stage if failed, commit index)
+	let mut writes: Vec<(String, Option<String>, bool, String, usize)> = vec![];
+	// writes of failed commits that must stay invisible in the running store
+	let mut failed_live: Vec<(String, Option<String>, String)> = vec![];
 	let mut any_error_reported = false;
+	let mut first_failed_commit: Option<usize> = None;
 	for r in &results {
 		if r.get("ok") == Some(&json!(false)) || r.get("sync") == Some(&json!(false)) || r.get("reopen") == Some(&json!(false)) {
 			any_error_reported = true;
 		}
-		if let Some(i) = r.get("commit").and_then(|c| c.as_u64()) {
-			let k = format!("k{i}");
-			if r["ok"].as_bool().unwrap_or(false) {
-				ok_keys.push(k.clone());
-				if any_commit_failed {
-					ok_after_failure.push(k);
+		if let Some(ci) = r.get("commit").and_then(|c| c.as_u64()) {
+			let ci = ci as usize;
+			let ok = r["ok"].as_bool().unwrap_or(false);
+			let stage = if ok { String::new() } else { failure_stage(r["err"].as_str().unwrap_or(""), f) };
+			for w in commits[ci] {
+				let k = String::from_utf8_lossy(&w.key).to_string();
+				let v = if w.kind.is_tombstone() { None } else { Some(vh(&w.value)) };
+				writes.push((k.clone(), v.clone(), ok, stage.clone(), ci));
+				if ok {
+					match &v {
+						Some(h) => {
+							model.insert(k.clone(), h.clone());
+						}
+						None => {
+							model.remove(&k);
+						}
+					}
+					// a later acknowledged write of the key shadows an earlier failed one
+					failed_live.retain(|(fk, _, _)| fk != &k);
+				} else {
+					failed_live.push((k, v, stage.clone()));
 				}
-			} else {
-				failed_keys.insert(k.clone());
-				all_failed.insert(k, r["err"].as_str().unwrap_or("").to_string());
-				any_commit_failed = true;
 			}
-		}
-		if r.get("reopen").is_some() {
-			// recovery may legitimately bring back the WAL record of a commit that had failed
-			// in the previous session (not judged, see assumptions)
-			failed_keys.clear();
+			if !ok && first_failed_commit.is_none() {
+				first_failed_commit = Some(ci);
+			}
 		}
 		if let Some(pe) = r.get("view").and_then(|v| v.get("probe_error")) {
 			if !any_error_reported {
@@ -139,29 +199,29 @@ fn judge(wl: &Workload, f: &Fault) -> Result<Option<(String, String)>, String> {
 			}
 		}
 		if let Some(view) = r.get("view").and_then(|v| v.as_array()) {
-			for k in view {
-				let k = k.as_str().unwrap_or("");
-				if failed_keys.contains(k) {
-					return Ok(Some((
-						format!("failed-commit-visible:{}", f.class_name),
-						format!("key {k} of a commit that returned an error is visible in the running store; results {}", serde_json::to_string(&results).unwrap().chars().take(3000).collect::<String>()),
-					)));
+			let seen: BTreeMap<String, String> = view.iter().filter_map(|e| Some((e.get(0)?.as_str()?.to_string(), e.get(1)?.as_str()?.to_string()))).collect();
+			let after_reopen = r.get("reopen").is_some();
+			let keys: BTreeSet<&String> = model.keys().chain(seen.keys()).collect();
+			for k in keys {
+				if seen.get(k) == model.get(k) {
+					continue;
 				}
-			}
-			// acknowledged commits must stay visible in the running store too
-			let seen: BTreeSet<&str> = view.iter().filter_map(|k| k.as_str()).collect();
-			for k in &ok_keys {
-				if !seen.contains(k.as_str()) {
-					return Ok(Some((format!("acked-commit-invisible:{}", f.class_name), format!("key {k} of an acknowledged commit is missing from a later read in the running store"))));
+				// which write explains what is seen?
+				if let Some((_, _, stage)) = failed_live.iter().find(|(fk, fv, _)| fk == k && fv.as_ref() == seen.get(k)) {
+					let class = if after_reopen { format!("failed-commit-recovered:{stage}") } else { format!("failed-commit-visible:{}", f.class_name) };
+					let mut at = r.clone();
+					if let Some(o) = at.as_object_mut() {
+						o.remove("view");
+					}
+					return Ok(Some((class, format!("key {k}: right after {at} the running store shows the write of a commit that returned an error ({}); commits {}", if after_reopen { "after a clean reopen" } else { "same session" }, summary()))));
 				}
+				return Ok(Some((
+					format!("acked-state-wrong-in-running-store:{}", f.class_name),
+					format!("key {k}: running store shows {:?}, acknowledged state says {:?}; commits {}", seen.get(k), model.get(k), summary()),
+				)));
 			}
 		}
 	}
-	// What must survive the crash: if the fault was never reported to the application, everything
-	// acknowledged; otherwise (the statement's wording) every commit acknowledged after the first
-	// failed commit. Commits acknowledged before a reported I/O failure are not judged here: an
-	// fsync/write error leaves their durability indeterminate, and the fault-free case is C02's.
-	let required: Vec<String> = if !any_error_reported { ok_keys.clone() } else { ok_after_failure.clone() };
 	// crash (the worker died without closing) and reopen with faults off
 	let fs = Fs::from_dir(&tr.final_dir);
 	if std::env::var("VERIF_DEBUG").is_ok() {
@@ -172,50 +232,50 @@ fn judge(wl: &Workload, f: &Fault) -> Result<Option<(String, String)>, String> {
 			eprintln!("  final file {p}: {} bytes", fs.data.get(o).map(|d| d.len()).unwrap_or(0));
 		}
 	}
+	// What must survive the crash: if the fault was never reported to the application, everything
+	// acknowledged; otherwise (the statement's wording) every commit acknowledged after the first
+	// failed commit. Commits acknowledged before a reported I/O failure are not judged here.
+	let required_from: Option<usize> = if !any_error_reported { Some(0) } else { first_failed_commit.map(|c| c + 1) };
+	let any_required = required_from.is_some_and(|from| writes.iter().any(|w| w.2 && w.4 >= from));
 	let rec = recover(&fs, &wl.opt, false);
 	if let Some(p) = rec.panic {
 		return Ok(Some((format!("recovery-panic-after-fault:{}", f.class_name), p)));
 	}
 	match rec.open1 {
 		Err(e) => {
-			if required.is_empty() {
+			if !any_required {
 				UNJUDGED.fetch_add(1, std::sync::atomic::Ordering::Relaxed);
 				return Ok(None);
 			}
 			let kind = if any_error_reported { "acked-after-failure-unrecoverable" } else { "silent-fault-unrecoverable" };
-			Ok(Some((format!("{kind}:{}:{}", f.class_name, crate::props::norm_msg(&e).chars().take(60).collect::<String>()), format!("reopen after the faulty run: {e}; must recover {required:?}; worker results {}", serde_json::to_string(&results).unwrap().chars().take(3000).collect::<String>()))))
+			Ok(Some((format!("{kind}:{}:{}", f.class_name, crate::props::norm_msg(&e).chars().take(60).collect::<String>()), format!("reopen after the faulty run: {e}; commits {}", summary()))))
 		}
 		Ok(content) => {
-			let have: BTreeSet<String> = content.iter().map(|(k, _)| String::from_utf8_lossy(k).to_string()).collect();
-			for k in &required {
-				if !have.contains(k) {
-					let kind = if any_error_reported { "acked-after-failure-lost" } else { "silent-fault-acked-lost" };
+			let have: BTreeMap<String, String> = content.iter().map(|(k, v)| (String::from_utf8_lossy(k).to_string(), vh(v))).collect();
+			let keys: BTreeSet<String> = writes.iter().map(|w| w.0.clone()).chain(have.keys().cloned()).collect();
+			for k in &keys {
+				let ws: Vec<&(String, Option<String>, bool, String, usize)> = writes.iter().filter(|w| &w.0 == k).collect();
+				// last write of the key that is required to survive
+				let last_required = required_from.and_then(|from| ws.iter().rposition(|w| w.2 && w.4 >= from));
+				let got = have.get(k);
+				// admissible explanations: an acknowledged write at or after the last required one;
+				// with no required write, any acknowledged write or "never written"
+				let start = last_required.unwrap_or(0);
+				let explained_by_acked = ws[start..].iter().any(|w| w.2 && w.1.as_ref() == got) || (last_required.is_none() && got.is_none());
+				if explained_by_acked {
+					continue;
+				}
+				if let Some(w) = ws[start..].iter().find(|w| !w.2 && w.1.as_ref() == got) {
 					return Ok(Some((
-						format!("{kind}:{}", f.class_name),
-						format!("acknowledged key {k} missing after crash+reopen; recovered {:?}; commit results {:?}", have, results.iter().filter_map(|r| r.get("commit").map(|c| format!("{}:{}", c, r["ok"]))).collect::<Vec<_>>()),
+						format!("failed-commit-recovered:{}", w.3),
+						format!("key {k}: after crash+reopen the store shows the write of commit {} which returned an error; commits {}", w.4, summary()),
 					)));
 				}
-			}
-			// "none of the transaction's writes becomes visible to any reader": also not to the readers
-			// of the recovered store. Class = the stage at which the commit had failed.
-			for (k, err) in &all_failed {
-				if have.contains(k) {
-					let stage = if err.contains("WAL error") {
-						match f.class_name {
-							"write" => "wal-append-error".to_string(),
-							"fsync" => "wal-sync-error".to_string(),
-							c => format!("wal-error-on-{c}"),
-						}
-					} else if err.starts_with("Commit failed") {
-						"apply-error-after-wal-append".to_string()
-					} else {
-						format!("other:{}", crate::props::norm_msg(err).chars().take(40).collect::<String>())
-					};
-					return Ok(Some((
-						format!("failed-commit-recovered:{stage}"),
-						format!("key {k} of a commit that returned an error ({err}) is present after crash+reopen; commit results {:?}", results.iter().filter_map(|r| r.get("commit").map(|c| format!("{}:{}", c, r["ok"]))).collect::<Vec<_>>()),
-					)));
-				}
+				let kind = if any_error_reported { "acked-after-failure-lost" } else { "silent-fault-acked-lost" };
+				return Ok(Some((
+					format!("{kind}:{}", f.class_name),
+					format!("key {k}: after crash+reopen {:?}, but the last acknowledged write that must survive is commit {:?}; commits {}", got, last_required.map(|i| ws[i].4), summary()),
+				)));
 			}
 			Ok(None)
 		}
@@ -293,7 +353,7 @@ pub fn check(tier: Tier) -> i32 {
 	report.violations.sort_by_key(|v| v.what.is_empty());
 	report.set("evaluations", json!(total_done));
 	report.set("distinct_nontrivial", json!(total_done));
-	report.set("rule", json!("4 workloads (10 commits of 500-byte values with both durabilities, rotate, flush-oldest, drain; 4 KiB memtable so a rotation also happens inside apply; option sets plain / vlog / versioned index / flush-on-close with reopen) x every position n of every call class {write-like: EIO, ENOSPC, short write then ENOSPC; fsync: EIO; rename: EIO; create: ENOSPC} x {once, persistent}; each run is distinct; non-trivial = runs in which the armed position lies within the fault-free call count (all of them)"));
+	report.set("rule", json!("6 workloads (4 x 10 commits of 500-byte values with both durabilities, rotate, flush-oldest, drain; 4 KiB memtable so a rotation also happens inside apply; option sets plain / vlog / versioned index / flush-on-close with reopen; 2 x overwrites, deletes and 2-3-key transactions on three keys with rotate, flush, drain, compaction, without and with a reopen in the middle; judged at value level) x every position n of every call class {write-like: EIO, ENOSPC, short write then ENOSPC; fsync: EIO; rename: EIO; create: ENOSPC} x {once, persistent}; each run is distinct; non-trivial = runs in which the armed position lies within the fault-free call count (all of them)"));
 	report.set("samples", json!(samples));
 	report.set("call_counts_fault_free", json!(all_counts));
 	report.set("fault_runs_planned", json!(total_planned));
